@@ -44,6 +44,12 @@ func w1Gen(r *rand.Rand, prop, tier string) *simrt.Case {
 	}
 	switch prop {
 	case "C01", "C05":
+		if prop == "C05" && r.IntN(6) == 0 {
+			// several brokers handing partitions over through leases: the published end offset must not
+			// go back when an old owner comes back
+			w1GenLease(r, c, nclients, maxOps)
+			return c
+		}
 		w1GenProduceHeavy(r, c, nclients, maxOps, prop)
 	default:
 		w1GenProp(r, c, nclients, maxOps, prop, tier)
@@ -88,6 +94,20 @@ func w1GenProduceHeavy(r *rand.Rand, c *simrt.Case, nclients, maxOps int, prop s
 			c.Faults = append(c.Faults, simrt.Fault{Kind: "store.err", Op: "store.UpdateOffsets", Nth: r.IntN(4)})
 		case 7:
 			c.Faults = append(c.Faults, simrt.Fault{Kind: "store.slow", Op: "store.UpdateOffsets", Nth: r.IntN(4), Arg: int64(5+r.IntN(50)) * 1e6})
+		}
+	}
+	if prop == "C05" && r.IntN(4) == 0 {
+		// S3 ahead of the published end offset when a new incarnation opens the partition: uploads whose
+		// offset publication failed, then a restart, then reads of the end offset and more appends
+		c.Faults = append(c.Faults, simrt.Fault{Kind: "store.err", Op: "store.UpdateOffsets", Nth: r.IntN(3), Count: 1 + r.IntN(3)})
+		for i := 0; i < 1+r.IntN(3); i++ {
+			c.Program = append(c.Program, simrt.Op{Actor: 0, Kind: "produce", B: 0, C: int64(1 + r.IntN(3)), D: -1})
+		}
+		c.Program = append(c.Program, simrt.Op{Actor: 0, Kind: "crash", A: 0})
+		c.Program = append(c.Program, simrt.Op{Actor: 0, Kind: "listoffsets", B: 0})
+		for i := 0; i < 1+r.IntN(2); i++ {
+			c.Program = append(c.Program, simrt.Op{Actor: 0, Kind: "produce", B: 0, C: int64(1 + r.IntN(3)), D: -1})
+			c.Program = append(c.Program, simrt.Op{Actor: 0, Kind: "listoffsets", B: 0})
 		}
 	}
 }
